@@ -266,9 +266,13 @@ PROPS = {
               ["state:rebirth", "state:unregister-while-other-writers-remain"]),
     "C23": rc("C23", {"quick": C("C23"), "thorough": C("C23")},
               ["nextinstance", "nextinstance:skips-instance-without-matching-samples", "nextinstance:none"]),
-    "C24": rc("C24", {"quick": C("C24", "C24b", "C24_walk"), "thorough": C("C24", "C24b", "C24_walk")},
-              ["ownership:weaker-writer-ignored", "ownership:stronger-writer-takes-over",
-               "ownership:owner-no-longer-matched"]),
+    "C24": combine(rc("C24", {"quick": C("C24", "C24b", "C24_walk"), "thorough": C("C24", "C24b", "C24_walk")},
+                      ["ownership:weaker-writer-ignored", "ownership:stronger-writer-takes-over",
+                       "ownership:owner-no-longer-matched"]),
+                   # end to end (the deadline sweep of the worker releases the ownership, deletion of the owner travels by discovery)
+                   simprop(scenarios.c24own, ["C24"], {"scenarios": 10, "accepted": 30, "ignored": 20, "takeovers": 5, "afterdeadline": 4,
+                                                       "afterdelete": 2, "afterunregister": 2},
+                           spec="Trace_Ownership", mc=None, norm=tracenorm.normalise_ownership)),
     "C25": rc("C25", {"quick": C("C25", "C25b", "C25c", "C25_walk"), "thorough": C("C25", "C25b", "C25c", "C25_walk")},
               ["timefilter:closer-than-minimum-separation"]),
 }
@@ -686,6 +690,10 @@ def _keyhash(prop, tier, seed, owns):
             if e["hw"] != e["hr"]:
                 found.append((f"KeyHash:identity:reader-handle-differs-from-writer-handle:{e['phase']}",
                               f"type {e['type']} key {e['v']}: writer {e['hw']} reader {e['hr']}", {"scenario": sc, "event": e}))
+            # C12: the handle the reader USES is the key hash as well, also when it has to derive it from the payload
+            if e["hr"] != want and e["hr"] != e["hw"]:
+                found.append((f"KeyHash:{exp['mode']}:e2e:reader-uses-a-handle-that-is-not-the-key-hash:{e['phase']}",
+                              f"type {e['type']} key {e['v']}: expected {want} reader uses {e['hr']}", {"scenario": sc, "event": e}))
             if e["hw"] != want:
                 how = "padded-although-max-size-exceeds-16" if exp["mode"] == "md5" else "octets"
                 found.append((f"KeyHash:{exp['mode']}:e2e:{how}", f"type {e['type']} key {e['v']}: expected {want} got {e['hw']}", {"scenario": sc, "event": e}))
